@@ -19,6 +19,7 @@ import (
 
 	"go.miragespace.co/specter/spec/protocol"
 	client "go.miragespace.co/specter/tun/client"
+	"go.miragespace.co/specter/util/bufconn"
 
 	"verif/engine/e2"
 	"verif/engine/explore"
@@ -54,11 +55,18 @@ var (
 	c44BE   *c44Backends
 )
 
+// backend D answers after c44SlowDelay; header timeouts in scenarios are either far below
+// (100ms) or far above (30s) it, so the outcome does not depend on machine speed
+const c44SlowDelay = 2 * time.Second
+
 func c44GetBackends() *c44Backends {
 	c44Once.Do(func() {
 		be := &c44Backends{srv: map[string]*httptest.Server{}, names: map[string]string{}}
 		mk := func(name string, tls bool) {
 			h := http.HandlerFunc(func(w http.ResponseWriter, r *http.Request) {
+				if name == "D" {
+					time.Sleep(c44SlowDelay) // slow backend: response headers arrive late
+				}
 				w.Header().Set("Connection", "close")
 				fmt.Fprintf(w, "backend=%s host=%s", name, r.Host)
 			})
@@ -75,6 +83,7 @@ func c44GetBackends() *c44Backends {
 		mk("A", false)
 		mk("B", false)
 		mk("S", true)
+		mk("D", false)
 		c44BE = be
 	})
 	return c44BE
@@ -87,7 +96,8 @@ func (b *c44Backends) normalise(s string) string {
 	return s
 }
 
-// ---- tunnel list DSL: "h1>A", "h1>S+insecure", "h1>A+host=x.internal", "h1>A+mode=hostname" ----
+// ---- tunnel list DSL: "h1>A", "h1>S+insecure", "h1>A+host=x.internal" (custom mode), "h1>A+lhost=x.internal"
+// (header host, mode untouched), "h1>A+mode=hostname", "h1>D+timeout=100ms" ----
 
 func c44Tunnels(list string) []client.Tunnel {
 	be := c44GetBackends()
@@ -106,6 +116,14 @@ func c44Tunnels(list string) []client.Tunnel {
 			case strings.HasPrefix(o, "host="):
 				t.ProxyHeaderMode = "custom"
 				t.ProxyHeaderHost = o[len("host="):]
+			case strings.HasPrefix(o, "lhost="): // header host without touching the mode (legacy "" mode honours it)
+				t.ProxyHeaderHost = o[len("lhost="):]
+			case strings.HasPrefix(o, "timeout="):
+				d, err := time.ParseDuration(o[len("timeout="):])
+				if err != nil {
+					panic(err)
+				}
+				t.ProxyHeaderTimeout = d
 			case strings.HasPrefix(o, "mode="):
 				t.ProxyHeaderMode = o[len("mode="):]
 			}
@@ -161,7 +179,30 @@ var c44Changes = map[string][]string{
 	"mode-changed":      {"h1>A+mode=hostname", "h1>A+mode=target"},
 	"custom-retargeted": {"c.example.org>A,h1>A", "c.example.org>B,h1>A"},
 	"changed-twice":     {"h1>A", "h1>B", "h1>A+host=z.internal"},
+
+	// every per-tunnel setting the proxy honours, changed alone, per header mode
+	"legacy-host-changed":        {"h1>A+lhost=x.internal", "h1>A+lhost=y.internal"},
+	"legacy-host-added":          {"h1>A", "h1>A+lhost=x.internal"},
+	"legacy-host-removed":        {"h1>A+lhost=x.internal", "h1>A"},
+	"hostname-mode-host":         {"h1>A+mode=hostname+lhost=x.internal", "h1>A+mode=hostname+lhost=y.internal"}, // not honoured in this mode
+	"target-mode-host":           {"h1>A+mode=target+lhost=x.internal", "h1>A+mode=target+lhost=y.internal"},     // not honoured in this mode
+	"custom-host-added":          {"h1>A+mode=hostname", "h1>A+host=x.internal"},
+	"legacy-to-hostname":         {"h1>A+lhost=x.internal", "h1>A+mode=hostname+lhost=x.internal"},
+	"legacy-to-custom":           {"h1>A+lhost=x.internal", "h1>A+host=x.internal"}, // same Host header either way
+	"custom-to-target":           {"h1>A+host=x.internal", "h1>A+mode=target+lhost=x.internal"},
+	"target-changed-custom":      {"h1>A+host=x.internal", "h1>B+host=x.internal"},
+	"target-changed-hostname":    {"h1>A+mode=hostname", "h1>B+mode=hostname"},
+	"target-changed-target":      {"h1>A+mode=target", "h1>B+mode=target"},
+	"insecure-enabled-custom":    {"h1>S+host=x.internal", "h1>S+insecure+host=x.internal"},
+	"insecure-disabled-hostname": {"h1>S+insecure+mode=hostname", "h1>S+mode=hostname"},
+	"timeout-shortened":          {"h1>D+timeout=30s", "h1>D+timeout=100ms"},
+	"timeout-extended":           {"h1>D+timeout=100ms", "h1>D+timeout=30s"},
+	"timeout-set":                {"h1>D", "h1>D+timeout=100ms"},
+	"timeout-shortened-custom":   {"h1>D+timeout=30s+host=x.internal", "h1>D+timeout=100ms+host=x.internal"},
 }
+
+// scenarios whose probes take c44SlowDelay each: explored without preemptions only
+func c44Slow(name string) bool { return strings.HasPrefix(name, "timeout-") }
 
 type c44Scn struct {
 	change string
@@ -206,6 +247,20 @@ func c44Scenarios(thorough bool) []string {
 		}
 	}
 	both := []string{"rebuild", "reload"}
+	warm := func(change string, hows []string) {
+		for _, how := range hows {
+			out = append(out, fmt.Sprintf("%s|%s|warm|h1", change, how))
+		}
+	}
+	// one setting changed alone on a tunnel whose proxy already exists
+	warm("legacy-host-changed", both)
+	warm("legacy-host-added", []string{"rebuild"})
+	warm("legacy-host-removed", []string{"reload"})
+	warm("custom-host-added", []string{"rebuild"})
+	warm("legacy-to-hostname", []string{"rebuild"})
+	warm("hostname-mode-host", []string{"rebuild"})
+	warm("timeout-shortened", both)
+	warm("timeout-extended", []string{"rebuild"})
 	add("target-changed", both, []string{"h1"})
 	add("hostname-removed", []string{"rebuild", "reload", "unpublish"}, []string{"h1"})
 	add("hostname-added", both, []string{"h2"})
@@ -226,6 +281,12 @@ func c44Scenarios(thorough bool) []string {
 		add("mode-changed", both, []string{"h1"})
 		add("custom-retargeted", both, []string{"c.example.org", "h1"})
 		add("changed-twice", both, []string{"h1", "h1,h1"})
+		for _, ch := range []string{"legacy-host-changed", "legacy-host-added", "legacy-host-removed", "hostname-mode-host", "target-mode-host", "custom-host-added",
+			"legacy-to-hostname", "legacy-to-custom", "custom-to-target", "target-changed-custom", "target-changed-hostname", "target-changed-target",
+			"insecure-enabled-custom", "insecure-disabled-hostname", "timeout-shortened", "timeout-extended", "timeout-set", "timeout-shortened-custom"} {
+			warm(ch, both)
+			out = append(out, fmt.Sprintf("%s|rebuild|cold|h1", ch))
+		}
 	}
 	return out
 }
@@ -265,16 +326,19 @@ func c44NewClient(path, list string) (*client.Client, *c43Stub) {
 
 // c44Probe issues one NEW incoming HTTP connection for hostname and says what happened to it.
 func c44Probe(cl *client.Client, hostname string) string {
-	a, b := net.Pipe()
+	// buffered in-memory conn with the request already written: the proxy's server finds the
+	// request headers at once, so its (configurable) read-header timeout never depends on
+	// how fast this goroutine gets to write
+	a, b := bufconn.BufferedPipe(16 << 10)
 	defer a.Close()
 	defer b.Close()
+	a.SetDeadline(time.Now().Add(20 * time.Second))
+	if _, err := fmt.Fprintf(a, "GET /probe HTTP/1.1\r\nHost: %s\r\n\r\n", hostname); err != nil {
+		return "not-served(write:" + c44Err(err) + ")"
+	}
 	err := cl.VerifHandleDelegation(context.Background(), &protocol.Link{Alpn: protocol.Link_HTTP, Hostname: hostname, Remote: "203.0.113.9:4000"}, b)
 	if err != nil {
 		return "refused"
-	}
-	a.SetDeadline(time.Now().Add(10 * time.Second))
-	if _, err := fmt.Fprintf(a, "GET /probe HTTP/1.1\r\nHost: %s\r\n\r\n", hostname); err != nil {
-		return "not-served(write:" + c44Err(err) + ")"
 	}
 	resp, err := http.ReadResponse(bufio.NewReader(a), nil)
 	if err != nil {
@@ -486,7 +550,26 @@ func c44(c *report.Check) {
 	if c.Thorough() {
 		tb = 3
 	}
-	sum := e2.Drive(c, []e2.Plan{{Scns: scns, Bound: -1, TotalBound: tb, Batch: 1}}, 0)
+	var fast, slow, three []string
+	seen := map[string]bool{}
+	for _, s := range scns {
+		if seen[s] {
+			continue
+		}
+		seen[s] = true
+		switch {
+		case c44Slow(s):
+			slow = append(slow, s)
+		case strings.HasPrefix(s, "dual:") && !strings.HasSuffix(s, "|-"):
+			three = append(three, s) // two changes + a connection: three threads
+		default:
+			fast = append(fast, s)
+		}
+	}
+	scns = append(append(append([]string{}, fast...), three...), slow...)
+	sum := e2.Drive(c, []e2.Plan{{Scns: fast, Bound: -1, TotalBound: tb, Batch: 1}, {Scns: three, Bound: -1, TotalBound: 2, Batch: 1}, {Scns: slow, Bound: 0, Batch: 1}}, 0)
+	c.Set("scenarios_without_preemption", len(slow))
+	c.Set("scenarios_three_threads_bound_2", len(three))
 	for _, v := range sum.Violations {
 		cls := v.Violation
 		if i := strings.Index(cls, ":"); i > 0 {
@@ -502,7 +585,7 @@ func c44(c *report.Check) {
 	c.Set("distinct_nontrivial", len(sum.Outcomes))
 	c.Set("scenarios", len(scns))
 	c.Set("scenarios_two_concurrent_changes", len(dual))
-	c.Set("rule", fmt.Sprintf("second family (%d scenarios): POST /unpublish or /release of a hostname (syncMu + UnpublishTunnel/ReleaseTunnel, stub RPC = scheduling point), or the periodic SyncConfigTunnels (-> RebuildTunnels) as thread A against doReload from a file edited beforehand (tunnel added above / removed above / reordered / added below / retargeted / unchanged / dropped) as thread B, optionally one incoming connection as a third thread; afterwards memory, saved file, router and proxy cache must be consistent, the final tunnel set must equal one of the two serial orders (run on fresh clients) and new connections must follow the final configuration. ", len(dual))+fmt.Sprintf("first family: %d scenarios = (old -> new tunnel lists: target changed, hostname removed/added, header option changed, TLS verification option changed, unrelated tunnel changed, removed then re-added, ...) x change applied by RebuildTunnels / SIGHUP reload / UnpublishTunnel x proxy cache warm or cold x 1-2 incoming connections; thread 'change' and thread 'conn' (real handleIncomingDelegation) under the cooperative scheduler with statement-level points in handleIncomingDelegation, RebuildTunnels, closeOutdatedProxies, tunnelRemovalWrapper, doReload, reloadFile, buildRouter and every configMu/syncMu operation; every schedule with at most %d deviations from the default schedule; after each execution a new HTTP connection per hostname is really forwarded (reverse proxy -> loopback backends A, B, TLS backend S) and compared with a fresh client that only ever had the final configuration; 'states' = distinct observable outcomes", len(scns)-len(dual), tb))
+	c.Set("rule", fmt.Sprintf("second family (%d scenarios): POST /unpublish or /release of a hostname (syncMu + UnpublishTunnel/ReleaseTunnel, stub RPC = scheduling point), or the periodic SyncConfigTunnels (-> RebuildTunnels) as thread A against doReload from a file edited beforehand (tunnel added above / removed above / reordered / added below / retargeted / unchanged / dropped) as thread B, optionally one incoming connection as a third thread; afterwards memory, saved file, router and proxy cache must be consistent, the final tunnel set must equal one of the two serial orders (run on fresh clients) and new connections must follow the final configuration. ", len(dual))+fmt.Sprintf("first family: %d scenarios = (old -> new tunnel lists: target changed, hostname removed/added, each setting the proxy honours changed alone per header mode (header host in legacy/custom/hostname/target mode, header mode, TLS verification, header timeout against a slow backend), unrelated tunnel changed, removed then re-added, ...) x change applied by RebuildTunnels / SIGHUP reload / UnpublishTunnel x proxy cache warm or cold x 1-2 incoming connections; thread 'change' and thread 'conn' (real handleIncomingDelegation) under the cooperative scheduler with statement-level points in handleIncomingDelegation, RebuildTunnels, closeOutdatedProxies, tunnelRemovalWrapper, doReload, reloadFile, buildRouter and every configMu/syncMu operation; every schedule with at most %d deviations from the default schedule; after each execution a new HTTP connection per hostname is really forwarded (reverse proxy -> loopback backends A, B, TLS backend S) and compared with a fresh client that only ever had the final configuration; 'states' = distinct observable outcomes", len(scns)-len(dual), tb))
 	var samples []any
 	for i, s := range scns {
 		if i%(len(scns)/6+1) == 0 {
@@ -518,7 +601,8 @@ func c44(c *report.Check) {
 	}
 	c.Assume("skipmap operations, getHTTPProxy (proxy cache lookup/creation + hand-off) and the stub tunnel RPCs are single atomic steps; the proxy's HTTP server goroutines run free",
 		"a connection whose handling overlaps the change may be served by the old or the new configuration; it is judged only if it arrived after the change completed",
-		"the header-timeout option is not observable without wall-clock waits and is not compared",
+		"the header-timeout option is observed through a backend that answers after 2 s with timeouts of 100 ms or 30 s, the probe request being pre-buffered so that the read-header timeout of the proxy is not raced (far from the boundary); those scenarios are explored without preemptions (all schedules that switch only when a thread blocks or ends)",
+		"scenarios with three threads (two changes and a connection) are explored with deviation bound 2 in both tiers",
 		"only HTTP (cached proxy) connections are explored; TCP streams have no cache",
 		"every change touches one tunnel at a time: diffTunnels iterates Go maps, so with two or more changed tunnels the invalidation order is random and a schedule could not be replayed deterministically")
 }
